@@ -1,6 +1,6 @@
 (* Extraction of the C07 frame model (ExtrOcamlBasic only; numbers stay Coq's positive/Z datatypes). *)
 From Coq Require Extraction ExtrOcamlBasic.
-From Verif Require Import Frame.FrameModel Frame.FrameMachine Frame.FrameExec Frame.SlotModel Frame.SlotFull.
+From Verif Require Import Frame.FrameModel Frame.FrameMachine Frame.FrameExec Frame.SlotModel Frame.SlotFull Frame.FrameA64Proofs Frame.FrameCopies.
 Extraction Blacklist List String Int.
 Extraction "frame.ml" FrameModel.finalize_error FrameModel.a64_realisable FrameModel.compiler_cc FrameModel.cc_init FrameModel.min_dynamic_alignment FrameModel.finalize
-  FrameModel.prolog FrameModel.epilog FrameModel.saved_regs SlotModel.alloc_offsets SlotModel.alloc_all SlotFull.order_ok SlotFull.placed_ok SlotFull.alloc_frame SlotFull.to_sslot SlotFull.slot_weight FrameExec.exec_frame FrameExec.exec_args_frame.
+  FrameModel.prolog FrameModel.epilog FrameModel.saved_regs SlotModel.alloc_offsets SlotModel.alloc_all SlotFull.order_ok SlotFull.placed_ok SlotFull.alloc_frame SlotFull.to_sslot SlotFull.slot_weight FrameExec.exec_frame FrameExec.exec_args_frame FrameA64Proofs.a64_encodable FrameCopies.copies_ok_data FrameCopies.acopy_instr FrameCopies.copies64_ok_data FrameCopies.acopy64_instr.
